@@ -6,17 +6,22 @@ import PyGqlModel.Lex
 
 namespace PyGql.Lex
 
-/-- the error (if any) is inside `[0, n]`, or is the `NonTerminatedString` at `n + 1` -/
-def ErrOK (n : Nat) (e : SynErr) : Prop :=
+/-- the error position is inside `[0, n]`, or it is the `NonTerminatedString` at `n + 1` -/
+def ErrPos (n : Nat) (e : SynErr) : Prop :=
   e.pos ≤ n ∨ (e.pos = n + 1 ∧ e.kind = .nonTerminatedString)
+
+/-- a reader's error: position as above, and it is a real `GraphQLSyntaxError` subclass (not the model's `fuel`) -/
+def ErrOK (n : Nat) (e : SynErr) : Prop := ErrPos n e ∧ e.kind ≠ .fuel
 
 def Bounded {α} (n : Nat) (r : R α) : Prop := ∀ e, r = .error e → ErrOK n e
 
-theorem ErrOK.inside {n : Nat} {k : ErrKind} {p : Nat} (h : p ≤ n) : ErrOK n ⟨k, p⟩ := Or.inl h
-theorem errOK_posAt (n : Nat) (k : ErrKind) (t : Text) : ErrOK n ⟨k, posAt n t⟩ := Or.inl (Nat.sub_le _ _)
-theorem errOK_posAt_pred (n : Nat) (k : ErrKind) (t : Text) : ErrOK n ⟨k, posAt n t - 1⟩ :=
-  Or.inl (Nat.le_trans (Nat.sub_le _ _) (Nat.sub_le _ _))
-theorem errOK_eof (n : Nat) : ErrOK n ⟨.nonTerminatedString, n + 1⟩ := Or.inr ⟨rfl, rfl⟩
+theorem ErrOK.inside {n : Nat} {k : ErrKind} {p : Nat} (h : p ≤ n) (hk : k ≠ .fuel := by decide) : ErrOK n ⟨k, p⟩ :=
+  ⟨Or.inl h, hk⟩
+theorem errOK_posAt (n : Nat) (k : ErrKind) (t : Text) (hk : k ≠ .fuel := by decide) : ErrOK n ⟨k, posAt n t⟩ :=
+  ⟨Or.inl (Nat.sub_le _ _), hk⟩
+theorem errOK_posAt_pred (n : Nat) (k : ErrKind) (t : Text) (hk : k ≠ .fuel := by decide) : ErrOK n ⟨k, posAt n t - 1⟩ :=
+  ⟨Or.inl (Nat.le_trans (Nat.sub_le _ _) (Nat.sub_le _ _)), hk⟩
+theorem errOK_eof (n : Nat) : ErrOK n ⟨.nonTerminatedString, n + 1⟩ := ⟨Or.inr ⟨rfl, rfl⟩, by simp⟩
 
 theorem bounded_ok {α} (n : Nat) (a : α) : Bounded n (.ok a : R α) := by
   intro e h; cases h
